@@ -1,10 +1,21 @@
 import Cfdm.Lemmas.Settings
 import Cfdm.Lemmas.SettingsOld
+import Cfdm.Lemmas.SettingsMid
+import Cfdm.Lemmas.SettingsFine
+import Cfdm.Lemmas.SettingsCm
 import Cfdm.Spec.Settings
 /-
 C20 — global settings changed for a call or a block are always restored.
-Property theorems only.  `run` is the semantics with the verbosity decorator as patched by
-fixes/C20-verbose-scope.patch; `runOld` the decorator of 1.11.2.0 (counter-examples at the end).
+Property theorems only.  Three decorators (Model/Settings.lean):
+  `run`    = `runWith decoNew`: what the property demands of every decorated call (the code after
+             fixes/C20-verbose-scope-full.patch, which cannot be applied: a test of the suite pins
+             the third defect);
+  `runMid` = `runWith decoMid`: the code after fixes/C20-verbose-scope.patch (passes the unedited
+             suite; repairs the counter leak and the nested calls, leaves the outermost
+             `verbose=0`-under-DISABLE behaviour);
+  `runOld` = `runWith decoOld`: the decorator of 1.11.2.0.
+The driver executes the statement-by-statement versions (`decoOldFine`, `decoMidFine`,
+Model/SettingsFine.lean), proved equal to the compact ones below (`C20_helpers_refine`).
 -/
 namespace Cfdm.Props.C20
 open Cfdm.Settings Cfdm.Generated
@@ -258,6 +269,7 @@ theorem C20_verbose_scoped (p : Prog) (hp : LogFree p) (s : State) :
   | try_ body ih => exact ih hp s
   | raise e => rfl
   | eq r a m => simp [run, runWith, decorated, decoNew, Verbose.resolve, Verbose.toInt, frameOf]
+  | verdict r a m => rfl
 
 /-- Non-vacuity: outer `verbose=None`, inner `verbose=3`, then an invalid one inside a `try`,
 then a raising cfdm function called with a name — a tree on which the unfixed code fails. -/
@@ -345,6 +357,7 @@ theorem C20_verbose_scoped_with_blocks (p : Prog) (hp : Balanced p) (s : State) 
   | eq r a m =>
     have := C20_verbose_scoped (.eq r a m) (by simp [LogFree]) s
     exact ⟨by simpa [logState] using (congrArg Prod.fst this), fun _ => obsLog_of_logState this⟩
+  | verdict r a m => exact ⟨rfl, fun _ => rfl⟩
 
 example : Balanced (.call (.int 3) (.seq (.withSet (.log (some (.str "debug"))) (.call (.bool false) .skip))
     (.withCfg { a := none, r := none, l := some (.int 2) } (.raise .KeyError)))) := by simp [Balanced]
@@ -463,6 +476,7 @@ theorem C20_logging_follows_global_level (p : Prog) (s : State) (hc : Consistent
   | eq r a m =>
     simp only [run, runWith]
     exact C20_decorated_call_keeps_consistency .none _ s hc (fun _ => hc)
+  | verdict r a m => exact hc
 
 /-- Non-vacuity / contrast: a global change made inside a call with a verbosity survives the
 call, with the matching logging state — and the unpatched decorator breaks the invariant. -/
@@ -619,5 +633,498 @@ example : guarded .WARNING none (.call (.int 7) .skip) = false
     ∧ guarded .WARNING none (.real .none false (.int 0)) = false
     ∧ guarded .DISABLE none (.call (.int 0) .skip) = false
     ∧ guarded .DISABLE none (.call (.int 3) (.call (.str "detail") .skip)) = true := by decide
+
+/-! ### The decorator after fixes/C20-verbose-scope.patch (`decoMid`)
+
+Full-strength statement (true for `decoNew`: `C20_verbose_scoped`; false for `decoMid`:
+`C20_mid_verbose_zero_still_reenables_logging`):
+
+    ∀ p, LogFree p → ∀ s, logState (runMid p s).1 = logState s
+
+What holds of the patched code: everything, except an *outermost* call with `verbose` =
+0/False/"DISABLE" under a global DISABLE (`guardedMid`): invalid values anywhere and arbitrary
+nested verbosities are repaired. -/
+
+/-- **Repaired (1): an invalid `verbose` leaves no trace at all** — not even in the private
+counter — whatever the state, nested or not. -/
+theorem C20_mid_invalid_verbose_no_trace (v : Verbose) (e : Exc) (body : State → State × Outcome) (s : State)
+    (h : v.resolve = .error e) : decorated decoMid v body s = (s, .raised e) := by
+  simp [decorated, mid_enter_error h]
+
+example : (Verbose.int 7).resolve = .error .ValueError
+    ∧ decorated decoMid (.int 7) (fun s => ({ s with atol := 5 }, .ok)) { State.init with calls := 2 }
+        = ({ State.init with calls := 2 }, .raised .ValueError)
+    ∧ (decorated decoOld (.int 7) (fun s => (s, .ok)) State.init).1.calls = 1 := ⟨rfl, by decide, by decide⟩
+
+/-- **Repaired (2): a call made inside another decorated call** (counter ≥ 1) around *any*
+computation that leaves the counter as it found it: the outcome is the body's; if the body leaves
+the global level alone, the global level, the root logger's level and the disable level afterwards
+are exactly those before, whatever `verbose` (None, valid, any body outcome) — so the enclosing
+call keeps its own verbosity; and the counter is back where it was. -/
+theorem C20_mid_nested_call_restores (v : Verbose) (lv : Option Level) (body : State → State × Outcome)
+    (s : State) (hres : v.resolve = .ok lv) (hc : 1 ≤ s.calls)
+    (hb : ∀ t, (body t).1.calls = t.calls ∧ (body t).1.level = t.level
+               ∧ (lv = none → logState (body t).1 = logState t)) :
+    (decorated decoMid v body s).1.calls = s.calls
+    ∧ logState (decorated decoMid v body s).1 = logState s
+    ∧ ∃ t, (decorated decoMid v body s).2 = (body t).2 ∧ settings (decorated decoMid v body s).1 = settings (body t).1 := by
+  obtain ⟨fro, so1, heo, hfv, hc1, ha1, hr1, hl1, hlog1⟩ := old_enter_fields hres s
+  have hem : decoMid.enter v s = (.ok fro, so1) := (mid_enter_valid hres s).trans heo
+  obtain ⟨hbc, hbl, hbn⟩ := hb so1
+  have h2 : 2 ≤ (body so1).1.calls := by omega
+  have hfro : fro = frameOf lv { s with calls := s.calls + 1 } := by
+    cases lv with
+    | none => have := old_enter_none hres s; rw [heo] at this; exact (congrArg Prod.fst this |> Except.ok.inj)
+    | some l => have := old_enter_some hres s; rw [heo] at this; exact (congrArg Prod.fst this |> Except.ok.inj)
+  simp only [decorated, hem, mid_exit_nested fro _ h2]
+  rw [hfro]
+  cases lv with
+  | none =>
+    simp only [new_exit_none]
+    have hso1 : so1 = { s with calls := s.calls + 1 } := by
+      have := old_enter_none hres s; rw [heo] at this; exact congrArg Prod.snd this
+    refine ⟨by show (body so1).1.calls - 1 = s.calls; omega, ?_, so1, rfl, by simp [settings]⟩
+    have := hbn rfl
+    simp only [logState, Prod.mk.injEq] at this ⊢
+    rw [this.1, this.2.1, this.2.2, hso1]
+    exact ⟨rfl, rfl, rfl⟩
+  | some l =>
+    have hlv : ({ (body so1).1 with calls := (body so1).1.calls - 1 } : State).level
+        = ({ s with calls := s.calls + 1 } : State).level := by simp only; rw [hbl, hl1]
+    rw [new_exit_some l _ _ hlv]
+    refine ⟨by show (body so1).1.calls - 1 = s.calls; omega, ?_, so1, rfl, by simp [settings]⟩
+    simp [logState, hbl, hl1]
+
+/-- Non-vacuity: inside an outer `verbose=3` call (counter 1, root 15) an inner `verbose=0` call
+whose body changes a tolerance and raises: hypotheses met, logging state back to the outer call's. -/
+example : (Verbose.bool false).resolve = .ok (some .DISABLE)
+    ∧ decorated decoMid (.bool false) (fun t => ({ t with atol := 4 }, .raised .KeyError))
+          { State.init with calls := 1, root := 15 }
+        = ({ State.init with calls := 1, root := 15, atol := 4 }, .raised .KeyError)
+    ∧ (decorated decoOld (.bool false) (fun t => ({ t with atol := 4 }, .raised .KeyError))
+          { State.init with calls := 1, root := 15 }).1.disable = critical := ⟨rfl, by decide, by decide⟩
+
+/-- Non-vacuity: the two histories on which 1.11.2.0 fails (`C20_old_invalid_verbose_leaks_counter`,
+`C20_old_nested_verbose_not_restored`, `C20_old_equals_disables_logging`) leave the logging state
+as it was under the patched decorator, counter included. -/
+theorem C20_mid_repairs_leak_and_nested :
+    (runMid (.seq (.try_ (.call (.int 7) .skip)) (.call (.int 3) .skip)) State.init).1 = State.init
+    ∧ (runMid (.call .none (.call (.int 3) .skip)) State.init).1 = State.init
+    ∧ (runMid (.real .none false (.int 0)) State.init).1 = State.init
+    ∧ (runMid (.call (.int 3) (.seq (.call (.int 1) .skip) (.call (.str "nonsense") .skip))) State.init).1
+        = State.init := by decide
+
+/-- **Left open (3)**: with the global level DISABLE an outermost `f(verbose=0)` still switches
+logging back on under the patched decorator (as `test_decorators.py` expects); the guard of the
+theorems below excludes exactly this. -/
+theorem C20_mid_verbose_zero_still_reenables_logging :
+    (runMid (.seq (.set (.log (some (.str "disable")))) (.call (.int 0) .skip)) State.init).1.disable = 0
+    ∧ guardedMid .DISABLE true (.call (.int 0) .skip) = false
+    ∧ guardedMid .DISABLE true (.call (.int 3) (.call (.int 0) .skip)) = true
+    ∧ guardedMid .WARNING true (.call (.bool false) (.call (.int 9) .skip)) = true := by decide
+
+/-- **Verbosity is call-scoped in the patched code, on `guardedMid` trees.**  For every tree of
+decorated calls — any depth, *any* `verbose` values nested at any depth (valid or not), opaque
+cfdm functions, raises, try blocks, equality tests, tolerance settings and blocks — whose
+outermost calls avoid `verbose`=0 under a global DISABLE, run with `decoMid` from a state with
+counter 0 that agrees with `log_level()`: the counter is 0 again, the global level, the disable
+level and the effective root level are those before, and exactly so (raw root level included)
+unless the global level is DISABLE.  (Induction on the tree: `midNewSim`.) -/
+theorem C20_mid_verbose_scoped_partial (p : Prog) (s : State)
+    (hg : guardedMid s.level true p = true) (hc : s.calls = 0) (hcons : Consistent s) :
+    (runMid p s).1.calls = 0
+    ∧ obsLog (runMid p s).1 = obsLog s
+    ∧ (s.level ≠ .DISABLE → logState (runMid p s).1 = logState s) := by
+  obtain ⟨_, _, ⟨h1, h2, h3⟩, _⟩ := midNewSim s.level p true s s hg ⟨rfl, hc, hcons⟩ (rel_refl s)
+  have h3' : Consistent (runWith decoMid p s).1 := h3
+  have hs := consistent_same h3' hcons h2
+  refine ⟨h1.trans hc, ?_, fun hd => ?_⟩
+  · simp only [runMid]
+    rw [(consistent_iff _).mp h3', (consistent_iff _).mp hcons, h2]
+  · have hd0 : s.disable = 0 := (hcons.2 hd).1
+    simp only [logState, Prod.mk.injEq, runMid]
+    exact ⟨h2, hs.2 (hs.1.trans hd0), hs.1⟩
+
+/-- On `guardedMid` trees the patched decorator and `decoNew` are observationally the same: same
+outcome, same final settings and observable logging state, and the same observation after every
+step at every depth — so everything proved for `run` above transfers to the patched code on those
+trees, and the correspondence stream may compare the implementation with `decoNew`'s prediction. -/
+theorem C20_mid_eq_new_on_guarded (p : Prog) (s : State)
+    (hg : guardedMid s.level true p = true) (hc : s.calls = 0) (hcons : Consistent s) :
+    fullTrace decoMid p s = fullTrace decoNew p s
+    ∧ (runMid p s).2 = (run p s).2
+    ∧ settings (runMid p s).1 = settings (run p s).1
+    ∧ obsLog (runMid p s).1 = obsLog (run p s).1 := by
+  obtain ⟨h1, h2, _, h4⟩ := midNewSim s.level p true s s hg ⟨rfl, hc, hcons⟩ (rel_refl s)
+  refine ⟨?_, h1, h2.1, h2.2⟩
+  simp only [fullTrace]
+  rw [h4, h1, ev_of_rel _ h2]
+
+/-- Non-vacuity: under WARNING every tree without log-level operations passes the guard — here
+one with an invalid value nested, an inner verbosity different from the outer one, an opaque cfdm
+function that compares with a hard-coded `verbose=0` under an outer `None` (all three rejected by
+the guard of the unpatched decorator); under DISABLE only an outermost 0 is rejected. -/
+example : guardedMid .WARNING true
+    (.seq (.try_ (.call (.int 3) (.seq (.call (.int 1) (.call (.str "loud") .skip)) (.real .none true (.int 0)))))
+          (.seq (.try_ (.call (.int 7) .skip)) (.call (.bool false) (.eq none (some 8) 5)))) = true := by decide
+example : guarded .WARNING none
+    (.seq (.try_ (.call (.int 3) (.seq (.call (.int 1) (.call (.str "loud") .skip)) (.real .none true (.int 0)))))
+          (.seq (.try_ (.call (.int 7) .skip)) (.call (.bool false) (.eq none (some 8) 5)))) = false := by decide
+example : guardedMid .DISABLE true (.call (.str "Disable") .skip) = false
+    ∧ guardedMid .DISABLE true (.call (.int 2) (.call (.bool false) (.call (.int 7) .skip))) = true := by decide
+
+/-! ### Every global level × every outermost `verbose` × every nested `verbose` -/
+
+/-- The state `cfdm.log_level(g)` establishes (tolerances arbitrary). -/
+def stateAt (g : Level) (a r : Nat) : State :=
+  { resetEmergence g { State.init with atol := a, rtol := r } with level := g }
+
+theorem stateAt_consistent (g : Level) (a r : Nat) : Consistent (stateAt g a r) :=
+  (consistent_iff _).mpr (obsLog_reset g _)
+
+/-- **The table.**  For every global level `g`, every outermost `verbose` `vo` and every nested
+`verbose` `vi` — `None`, integers (0, -1, …, invalid ones), names in any case ("DISABLE", "debug", no
+level name), `True`, `False` — whether the inner call is a synthetic one or the one an opaque cfdm
+function makes itself (and that function returns or raises): after the outermost call the triple
+(`LOG_LEVEL`, root logger level, `manager.disable`) is the triple before it
+* with `decoNew`, always and exactly;
+* with the patched decorator, unless `vo` is 0/False/"DISABLE" under `g` = DISABLE, exactly when
+  `g` ≠ DISABLE and up to the (then ineffective) root level when `g` = DISABLE;
+* with the decorator of 1.11.2.0, under its guard (valid values, `vi` ∈ {None, `vo`}, …) likewise. -/
+theorem C20_nested_verbose_table (g : Level) (vo vi : Verbose) (raises : Bool) (a r : Nat)
+    (p : Prog) (hp : p = .call vo (.call vi .skip) ∨ p = .real vo raises vi) :
+    logState (run p (stateAt g a r)).1 = logState (stateAt g a r)
+    ∧ (midOK g true vo = true →
+        (runMid p (stateAt g a r)).1.calls = 0
+        ∧ obsLog (runMid p (stateAt g a r)).1 = obsLog (stateAt g a r)
+        ∧ (g ≠ .DISABLE → logState (runMid p (stateAt g a r)).1 = logState (stateAt g a r)))
+    ∧ (guarded g none p = true →
+        (runOld p (stateAt g a r)).1.calls = 0
+        ∧ obsLog (runOld p (stateAt g a r)).1 = obsLog (stateAt g a r)
+        ∧ (g ≠ .DISABLE → logState (runOld p (stateAt g a r)).1 = logState (stateAt g a r))) := by
+  have hlf : LogFree p := by rcases hp with rfl | rfl <;> simp [LogFree]
+  have hlev : (stateAt g a r).level = g := rfl
+  have hcalls : (stateAt g a r).calls = 0 := by simp [stateAt, resetEmergence_calls, State.init]
+  refine ⟨C20_verbose_scoped p hlf _, fun hm => ?_, fun hg => ?_⟩
+  · have hgm : guardedMid (stateAt g a r).level true p = true := by
+      rw [hlev]
+      rcases hp with rfl | rfl
+      · simp [guardedMid, hm, midOK_nested]
+      · simp [guardedMid, hm]
+    have := C20_mid_verbose_scoped_partial p _ hgm hcalls (stateAt_consistent g a r)
+    rw [hlev] at this
+    exact this
+  · have := C20_old_verbose_scoped_partial p _ (by rw [hlev]; exact hg) hcalls (stateAt_consistent g a r)
+    rw [hlev] at this
+    exact this
+
+/-- Non-vacuity: the guards hold on the combinations that matter — `Field.equals(g, verbose=3)`
+whose `Constructs.equals` compares with `verbose=0` is fine for the patched decorator at every
+global level, while 1.11.2.0 fails it (the nested 0 is never undone … until the outermost exit
+re-derives the state, which then hides it: its guard rejects the tree). -/
+example : midOK .DISABLE true (.int 3) = true ∧ midOK .WARNING true (.bool false) = true
+    ∧ midOK .DISABLE true (.str "disable") = false
+    ∧ guarded .INFO none (.real (.int 3) false (.int 0)) = false
+    ∧ guarded .INFO none (.real (.int (-1)) false (.int (-1))) = true := by decide
+
+/-! ### The helpers, statement by statement -/
+
+/-- **Refinement**: the statement-by-statement models of `_disable_logging`,
+`_is_valid_log_level_int`, `_reset_log_emergence_level` (every form of argument its callers use:
+a `Constant`, a valid integer, a name), `log_level._parse`, `ConstantAccess.__new__` and of the
+two wrappers (Model/SettingsFine.lean — what the driver executes, over the *regenerated* tables)
+compute exactly the compact definitions the theorems above are stated on. -/
+theorem C20_helpers_refine :
+    (∀ (l : Level) (s : State),
+        resetLogEmergenceLevel (.const l.name) s = (resetEmergence l s, none)
+        ∧ resetLogEmergenceLevel (.int l.value) s = (resetEmergence l s, none)
+        ∧ resetLogEmergenceLevel (.str l.name) s = (resetEmergence l s, none))
+    ∧ (∀ i : Int, isValidLogLevelInt i
+        = (match Level.ofValue? i with | some _ => .ok true | none => .error .ValueError))
+    ∧ (∀ (a : Option LvlArg) (s : State), constantAccessLog a s = access (.log a) s)
+    ∧ decoOldFine = decoOld ∧ decoMidFine = decoMid :=
+  ⟨fun l s => ⟨resetLogEmergenceLevel_const l s, resetLogEmergenceLevel_int l s, resetLogEmergenceLevel_str l s⟩,
+   isValidLogLevelInt_eq, constantAccessLog_eq, decoOldFine_eq, decoMidFine_eq⟩
+
+example : resetLogEmergenceLevel (.int (-1)) { State.init with disable := 50 }
+    = ({ State.init with disable := 0, root := 10 }, none) := by decide
+example : resetLogEmergenceLevel (.int 7) State.init = (State.init, some .ValueError) := by decide
+example : (logLevelParse (.str "deTail") State.init).1 = some "DETAIL"
+    ∧ (logLevelParse (.str "critical") State.init) = (none, (State.init, some .ValueError)) := by decide
+
+/-- **A verbosity is in force inside its call**, whatever the state on entry (also inside a
+`verbose=0` region, where logging is disabled, and under a global DISABLE): with any of the three
+decorators, after the wrapper's `enter` with a `verbose` that resolves to `l`, logging is
+disabled iff `l` is DISABLE, and otherwise enabled with the root logger at `l`'s numeric level;
+the three settings are untouched. -/
+theorem C20_verbose_in_force (d : Deco) (hd : d = decoNew ∨ d = decoMid ∨ d = decoOld)
+    (v : Verbose) (l : Level) (s : State) (h : v.resolve = .ok (some l)) :
+    ∃ fr s1, d.enter v s = (.ok fr, s1) ∧ settings s1 = settings s
+      ∧ s1.disable = (if l = .DISABLE then critical else 0) ∧ (l ≠ .DISABLE → s1.root = l.no) := by
+  have key : ∀ t : State, settings (resetEmergence l t) = settings t
+      ∧ (resetEmergence l t).disable = (if l = .DISABLE then critical else 0)
+      ∧ (l ≠ .DISABLE → (resetEmergence l t).root = l.no) := by
+    intro t
+    by_cases hl : l = .DISABLE <;> simp [resetEmergence, hl, settings]
+  rcases hd with rfl | rfl | rfl
+  · exact ⟨_, _, new_enter_some h s, key s⟩
+  · refine ⟨_, _, (mid_enter_valid h s).trans (old_enter_some h s), ?_⟩
+    exact key { s with calls := s.calls + 1 }
+  · exact ⟨_, _, old_enter_some h s, key { s with calls := s.calls + 1 }⟩
+
+example : (Verbose.str "Info").resolve = .ok (some .INFO)
+    ∧ (decoMid.enter (.str "Info") { State.init with level := .DISABLE, disable := 50, calls := 3 }).2.disable = 0
+    ∧ (decoOld.enter (.str "Info") { State.init with disable := 50 }).2.root = 20
+    ∧ (decoNew.enter (.int 0) State.init).2.disable = critical := ⟨rfl, by decide, by decide, by decide⟩
+
+/-- … and that rests on the lift of a previous `logging.disable` in `_reset_log_emergence_level`
+being **unconditional**: with the lift made to depend on the stored constant
+(`resetEmergenceCond`: only when `CONSTANTS["LOG_LEVEL"]` is DISABLE) a `verbose=3` call inside a
+`verbose=0` call stays silent, and under the decorator of 1.11.2.0 `f(verbose=3)` whose function
+compares with `verbose=0` (`Field.equals` → `Constructs.equals`) leaves logging disabled for good;
+the two helpers agree wherever logging is not disabled behind the constant's back. -/
+theorem C20_lift_must_be_unconditional :
+    (resetEmergenceCond .DETAIL (resetEmergence .DISABLE State.init)).disable = critical
+    ∧ (resetEmergence .DETAIL (resetEmergence .DISABLE State.init)).disable = 0
+    ∧ (runWith (decoOldWith resetEmergenceCond) (.real (.int 3) false (.int 0)) State.init).1.disable = critical
+    ∧ (runWith (decoOldWith resetEmergence) (.real (.int 3) false (.int 0)) State.init).1 = State.init
+    ∧ decoOldWith resetEmergence = decoOld
+    ∧ (∀ (l : Level) (s : State), (s.level ≠ .DISABLE → s.disable = 0) →
+        resetEmergenceCond l s = resetEmergence l s) := by
+  refine ⟨by decide, by decide, by decide, by decide, rfl, fun l s hs => ?_⟩
+  unfold resetEmergenceCond resetEmergence
+  by_cases hl : l = .DISABLE
+  · simp [hl]
+  · by_cases hg : s.level = .DISABLE
+    · simp [hl, hg]
+    · simp only [hl, hg, if_false]
+      rw [← hs hg]
+
+/-! ### Tolerances travel down the whole call tree of an equality test -/
+
+/-- **A passed tolerance wins at every comparison of the call tree, also when it is falsy.**
+For every shape and depth of the tree of `equals` methods (which hand `rtol=rtol, atol=atol` on
+as they received them) and `_equals` helper calls (the one place where `None` is replaced by the
+global value), every array comparison is made with the passed number where one was passed —
+zero included — and with the global one otherwise; with both passed the verdict is the same in
+every global state; and the test of the `eq` statement of the programs above is the instance
+`Data.equals`.  (Induction on the tree.) -/
+theorem C20_passed_tolerances_reach_every_comparison (t : Cmp) (r a : Option Nat) (s s' : State) (m : Nat) :
+    evalWith resolveTol s r a t = specEval (r.getD s.rtol) (a.getD s.atol) t
+    ∧ (r.isSome → a.isSome → evalWith resolveTol s r a t = evalWith resolveTol s' r a t)
+    ∧ eqResult r a m s = evalWith resolveTol s r a (Cmp.data m) := by
+  refine ⟨?_, fun hr ha => ?_, ?_⟩
+  · rw [evalWith_resolveTol]; cases r <;> cases a <;> rfl
+  · rw [evalWith_resolveTol, evalWith_resolveTol]
+    cases r with
+    | none => cases hr
+    | some x => cases a with
+      | none => cases ha
+      | some y => rfl
+  · cases r <;> cases a <;> rfl
+
+/-- Non-vacuity and contrast: a field whose data are equal but one of whose metadata constructs
+has bounds differing by 7·2^-5 (five calls deep: `Field.equals` → `Constructs.equals` → the
+construct's `equals` → `Bounds.equals` → `Data.equals`), tested with explicit zeros under loose
+globals (0.5): "not equal" — and with a resolution that tests truthiness the zeros are replaced
+by the loose globals at the first helper and the verdict flips. -/
+example :
+    let t := Cmp.field none [Cmp.construct none none, Cmp.construct none (some 5)]
+    let s := { State.init with atol := 7, rtol := 7 }
+    evalWith resolveTol s (some 8) (some 8) t = false
+    ∧ evalWith resolveTol s none none t = true
+    ∧ evalWith resolveTolTruthy s (some 8) (some 8) t = true
+    ∧ evalWith resolveTol State.init (some 7) (some 8) t = true := by decide
+
+/-! ### Context managers as objects: any interleaving, re-entrancy, suspended generators -/
+
+/-- **An object restores what it captured, whatever happened since.**  `c = cfdm.atol(x)` (or
+`rtol`, `log_level`) executed after any history; then *any* further history `es` — other objects
+created, entered and left in any order (not nested: generators suspended inside `with` blocks),
+plain setter calls, the same object entered several times, blocks left normally, by an exception
+or by `close()`; then the exit of any block `j` that was entered on that object: the setting is
+the one in force just before `c` was created — and for `log_level`, from a state as `log_level`
+leaves it, so is the logging state. -/
+theorem C20_cm_exit_restores_what_the_object_captured (c : CmState) (op : SetOp) (old : Val) (s' : State)
+    (h : access op c.st = .ok (old, s')) (es : List Ev) (j : Nat)
+    (hj : (runEvs (stepEv c (.mk op)) es).acts[j]? = some c.objs.length) :
+    getVal op.key (stepEv (runEvs (stepEv c (.mk op)) es) (.exit j)).st = getVal op.key c.st
+    ∧ (op.key = .log → Consistent c.st →
+        obsLog (stepEv (runEvs (stepEv c (.mk op)) es) (.exit j)).st = obsLog c.st) := by
+  have hold := access_old op c.st s' old h
+  have hobj : (stepEv c (.mk op)).objs[c.objs.length]? = some (.const op.key old) := by
+    simp [stepEv, h]
+  have hkept := runEvs_obj_kept _ es _ _ hobj
+  rw [stepEv_exit_of _ j _ _ hj hkept, hold]
+  refine ⟨getVal_exitConst _ _ _, fun hk hc => ?_⟩
+  simp only [exitObj, hk, getVal, exitConst_log, obsLog_reset]
+  exact ((consistent_iff c.st).mp hc).symm
+
+/-- The same for `c = cfdm.configuration(...)`: after the exit of any block entered on it, in
+any interleaving, all three settings — and, from a consistent state, the logging state — are
+those in force just before `c` was created. -/
+theorem C20_cm_exit_restores_configuration (c : CmState) (a : CfgArgs) (old : Cfg) (s' : State)
+    (h : cfgCall a c.st = (none, old, s')) (es : List Ev) (j : Nat)
+    (hj : (runEvs (stepEv c (.mkCfg a)) es).acts[j]? = some c.objs.length) :
+    settings (stepEv (runEvs (stepEv c (.mkCfg a)) es) (.exit j)).st = settings c.st
+    ∧ (Consistent c.st → obsLog (stepEv (runEvs (stepEv c (.mkCfg a)) es) (.exit j)).st = obsLog c.st) := by
+  have hold : old = snapshot c.st := by
+    have := congrArg (fun r => r.2.1) h
+    simpa [cfgCall] using this.symm
+  have hobj : (stepEv c (.mkCfg a)).objs[c.objs.length]? = some (.config old) := by
+    simp [stepEv, h]
+  have hkept := runEvs_obj_kept _ es _ _ hobj
+  rw [stepEv_exit_of _ j _ _ hj hkept, hold]
+  refine ⟨?_, fun hc => ?_⟩
+  · simp [exitObj, exitCfg_eq, settings, snapshot, resetEmergence_atol, resetEmergence_rtol]
+  · simp only [exitObj, exitCfg_eq, snapshot, obsLog_reset]
+    exact ((consistent_iff c.st).mp hc).symm
+
+/-- Non-vacuity: re-entrancy and a non-nested interleaving.  `a = cfdm.atol(t3)` (object 0);
+`with a:` entered twice (blocks 0, 1); `b = cfdm.configuration(atol=t5, log_level="debug")`
+(object 1) entered (block 2) inside; block 0 is left *before* block 2 (a suspended generator),
+then block 2, then block 1: each exit puts back what its object captured — the last one the
+value before `a`.  Interleaved blocks are not a stack: after `exit 2` the tolerance is `a`'s
+*new* value (what `b` captured), not the initial one. -/
+example :
+    let es := [Ev.mk (.atol (some (.val 3))), .enter 0, .enter 0,
+               .mkCfg { a := some (.val 5), r := none, l := some (.str "debug") }, .enter 1,
+               .exit 0, .exit 2, .exit 1]
+    let c := runEvs (CmState.init State.init) es
+    c.st = State.init
+    ∧ (runEvs (CmState.init State.init) (es.take 6)).st.atol = 0
+    ∧ (runEvs (CmState.init State.init) (es.take 7)).st = { State.init with atol := 3 }
+    ∧ c.acts = [0, 0, 1] := by decide
+
+/-! ### Nothing but `with` blocks: everything is restored -/
+
+/-- **Every setting changed only for a block is restored.**  For every program in which all
+changes are made by `with` blocks — of `atol`, `rtol`, `log_level`, `configuration`, with valid
+or invalid arguments, nested in any order and depth (`with cfdm.atol(x): with
+cfdm.configuration(atol=y, log_level=z): …`), with decorated calls of any `verbose`, raises and
+try blocks inside and around — the three settings at the end are those at the start, from any
+state; and from a state as `log_level` leaves it so is the logging state. -/
+theorem C20_blocks_restore_everything (p : Prog) (hp : Bracketed p) (s : State) :
+    settings (run p s).1 = settings s ∧ (Consistent s → obsLog (run p s).1 = obsLog s) := by
+  have hbal : ∀ q, Bracketed q → Balanced q := by
+    intro q
+    induction q with
+    | skip => intro _; trivial
+    | seq a b iha ihb => intro h; exact ⟨iha h.1, ihb h.2⟩
+    | set op => intro h; rcases h with rfl | rfl | rfl <;> rfl
+    | cfg c => intro h; exact h.2.2
+    | withSet op body ih => intro h; exact ih h
+    | withCfg c body ih => intro h; exact ih h
+    | call v body ih => intro h; exact ih h
+    | real v x i => intro _; trivial
+    | try_ body ih => intro h; exact ih h
+    | raise e => intro _; trivial
+    | eq r a m => intro _; trivial
+    | verdict r a m => intro _; trivial
+  refine ⟨?_, (C20_verbose_scoped_with_blocks p (hbal p hp) s).2⟩
+  clear hbal
+  induction p generalizing s with
+  | skip => rfl
+  | seq p q ihp ihq =>
+    simp only [run, runWith]
+    cases h : (runWith decoNew p s).2 with
+    | ok => simp only []; exact (ihq hp.2 _).trans (ihp hp.1 s)
+    | raised e => exact ihp hp.1 s
+  | set op => rcases hp with rfl | rfl | rfl <;> rfl
+  | cfg c =>
+    rcases c with ⟨a, r, l⟩
+    obtain ⟨rfl, rfl, rfl⟩ := hp
+    rfl
+  | withSet op body ih =>
+    have hb : Bracketed body := hp
+    simp only [run, runWith]
+    cases h : access op s with
+    | error e => rfl
+    | ok res =>
+      obtain ⟨old, s1⟩ := res
+      have hold := access_old op s s1 old h
+      have hoth := (C20_setter_returns_old decoNew op s).1 old s1 h
+      have hbody := ih hb s1
+      simp only [run, settings, Prod.mk.injEq] at hbody
+      subst hold
+      simp only [settings, Prod.mk.injEq]
+      cases op with
+      | atol a =>
+        have h1 := hoth.2.1 .rtol (by simp [SetOp.key])
+        have h2 := hoth.2.1 .log (by simp [SetOp.key])
+        simp only [getVal, Val.tol.injEq, Val.lvl.injEq] at h1 h2
+        simp only [SetOp.key, getVal, exitConst_atol]
+        exact ⟨trivial, hbody.2.1.trans h1, hbody.2.2.trans h2⟩
+      | rtol a =>
+        have h1 := hoth.2.1 .atol (by simp [SetOp.key])
+        have h2 := hoth.2.1 .log (by simp [SetOp.key])
+        simp only [getVal, Val.tol.injEq, Val.lvl.injEq] at h1 h2
+        simp only [SetOp.key, getVal, exitConst_rtol]
+        exact ⟨hbody.1.trans h1, trivial, hbody.2.2.trans h2⟩
+      | log a =>
+        have h1 := hoth.2.1 .atol (by simp [SetOp.key])
+        have h2 := hoth.2.1 .rtol (by simp [SetOp.key])
+        simp only [getVal, Val.tol.injEq, Val.lvl.injEq] at h1 h2
+        simp only [SetOp.key, getVal, exitConst_log, resetEmergence_atol, resetEmergence_rtol]
+        exact ⟨hbody.1.trans h1, hbody.2.1.trans h2, trivial⟩
+  | withCfg c body ih => exact (C20_with_cfg_restores decoNew c body s).1
+  | call v body ih =>
+    have hb : Bracketed body := hp
+    simp only [run, runWith]
+    have hc := C20_verbose_call_restores v (runWith decoNew body) s
+    cases hr : v.resolve with
+    | error e => rw [hc.1 e hr]
+    | ok lv =>
+      have h2 := (hc.2 lv hr).2.1
+      rw [h2]
+      cases lv with
+      | none => exact ih hb s
+      | some l =>
+        have := ih hb (resetEmergence l s)
+        simp only [run] at this
+        rw [this]
+        simp [settings, resetEmergence_atol, resetEmergence_rtol, resetEmergence_level]
+  | real v raises inner =>
+    have := C20_verbose_scoped (.real v raises inner) (by simp [LogFree]) s
+    have hc := C20_verbose_call_restores v (fun s1 =>
+      ((decorated decoNew inner (fun s2 => (s2, Outcome.ok)) s1).1,
+        if raises then Outcome.raised Exc.TypeError else Outcome.ok)) s
+    simp only [run, runWith]
+    cases hr : v.resolve with
+    | error e => rw [hc.1 e hr]
+    | ok lv =>
+      have h2 := (hc.2 lv hr).2.1
+      rw [h2]
+      have hin : ∀ s1, settings (decorated decoNew inner (fun s2 => (s2, Outcome.ok)) s1).1 = settings s1 := by
+        intro s1
+        have hi := C20_verbose_call_restores inner (fun s2 => (s2, Outcome.ok)) s1
+        cases hri : inner.resolve with
+        | error e => rw [hi.1 e hri]
+        | ok li =>
+          rw [(hi.2 li hri).2.1]
+          cases li with
+          | none => rfl
+          | some l => simp [settings, resetEmergence_atol, resetEmergence_rtol, resetEmergence_level]
+      cases lv with
+      | none => exact hin s
+      | some l =>
+        simp only
+        rw [hin]
+        simp [settings, resetEmergence_atol, resetEmergence_rtol, resetEmergence_level]
+  | try_ body ih => exact ih hp s
+  | raise e => rfl
+  | eq r a m => simp [run, runWith, decorated, decoNew, Verbose.resolve, Verbose.toInt, frameOf]
+  | verdict r a m => rfl
+
+/-- Non-vacuity: the nesting named in the property's quantifier, with an exception thrown from
+the innermost block through both exits and a decorated call in between. -/
+example : Bracketed (.try_ (.withSet (.atol (some (.val 3)))
+    (.withCfg { a := some (.val 5), r := none, l := some (.str "Detail") }
+      (.call (.int 0) (.seq (.withSet (.log (some (.int (-1)))) (.eq none none 9)) (.raise .KeyError)))))) := by
+  simp [Bracketed]
+example : run (.try_ (.withSet (.atol (some (.val 3)))
+    (.withCfg { a := some (.val 5), r := none, l := some (.str "Detail") }
+      (.call (.int 0) (.seq (.withSet (.log (some (.int (-1)))) (.eq none none 9)) (.raise .KeyError))))))
+    State.init = (State.init, .ok) := by decide
 
 end Cfdm.Props.C20
